@@ -533,16 +533,17 @@ handled asynchronously — possibly after the client id has connected again.
 `OSt` wraps `St` (unchanged) with
 * `origins` — ghost: the origin of every queued event, oldest first (`origins.length = base.watch`);
   an admin event remembers who was registered when the session was deleted (its *victim*);
-* `own` — `SessionManager.ownDeletes[cid]` of `fixes/C16-own-delete-event.patch`: the number of
-  deletes this broker issued itself (`delDB`) whose event has not come back yet.
+* `own` — only for the PROPOSED repair `fixes/C16-own-delete-event.patch` (NOT applied to /repo):
+  `SessionManager.ownDeletes[cid]`, the number of deletes this broker issued itself (`delDB`) whose
+  event has not come back yet. Stays 0 in the current code.
 
-`ostep fixed` runs `step true` on the base (the takeover-teardown patch is always in) and
-* `fixed = false` (the code before `C16-own-delete-event.patch`; witness only): keeps the base
-  step as it is and only records the origins;
-* `fixed = true` (repaired `delDB` / `watchDelete`): `delDB` first looks the key up — nothing
-  stored ⇒ no delete, no event; otherwise it increments `own` BEFORE the delete. `watchDelete`
-  drops an event while `own > 0` (decrementing it) and runs `deleteSession` otherwise. The broker
-  has no access to `origins`: it counts.
+`ostep fixed` runs `step true` on the base (the takeover-teardown patch is in /repo) and
+* `fixed = false` = **the current code** (what the judge replays): the base step as it is — every
+  delivered delete event runs `deleteSession` — plus the record of the origins;
+* `fixed = true` = the proposed repair (theorems only, clearly labelled): `delDB` first looks the key
+  up — nothing stored ⇒ no delete, no event; otherwise it increments `own` BEFORE the delete.
+  `watchDelete` drops an event while `own > 0` (decrementing it) and runs `deleteSession` otherwise.
+  The broker has no access to `origins`: it counts.
 -/
 
 inductive Origin
